@@ -43,6 +43,22 @@ func (w *tw) nodes(ns []Node, depth int) {
 			w.loop(n.Loop, depth)
 		case n.Probe != nil:
 			w.probe(n.Probe)
+		case n.Pre != nil:
+			// no layout white space inside <pre>: every blank there is content
+			saved := w.pretty
+			w.pretty = false
+			w.sb.WriteString(`<pre data-m="` + n.Pre.ID + `">`)
+			w.nodes(n.Pre.Body, depth+1)
+			w.sb.WriteString(`</pre>`)
+			w.pretty = saved
+		case n.Piece != nil:
+			switch {
+			case n.Piece.Tag != "":
+				w.sb.WriteString("<" + n.Piece.Tag + ">{{ " + n.Piece.Path + " }}</" + n.Piece.Tag + ">")
+			case n.Piece.Path != "":
+				w.sb.WriteString("{{ " + n.Piece.Path + " }}")
+			}
+			w.sb.WriteString(n.Piece.Ws)
 		case n.List != nil:
 			slot := "sp"
 			if n.List.Destr {
@@ -69,9 +85,14 @@ func (w *tw) nodes(ns []Node, depth int) {
 				if k > 0 {
 					w.sb.WriteString(",")
 				}
-				if r.Pos == "tern" {
+				switch r.Pos {
+				case "tern":
 					w.sb.WriteString("{{ " + r.expr() + " ? 'Y' : 'N' }}")
-				} else {
+				case "type":
+					w.sb.WriteString("{{ type(" + r.Path + ") }}")
+				case "fn":
+					w.sb.WriteString("{{ tbadge(" + r.Path + ") }}")
+				default:
 					w.sb.WriteString("{{ " + r.Path + " }}")
 				}
 			}
@@ -84,7 +105,7 @@ func (w *tw) probe(p *Probe) {
 	w.sb.WriteString(`<span data-m="` + p.ID + `">[`)
 	first := true
 	for _, r := range p.Reads {
-		if r.Pos != "text" && r.Pos != "tern" {
+		if r.Pos != "text" && r.Pos != "tern" && r.Pos != "type" && r.Pos != "fn" {
 			continue
 		}
 		if !first {
@@ -93,6 +114,10 @@ func (w *tw) probe(p *Probe) {
 		first = false
 		if r.Pos == "text" {
 			w.sb.WriteString("{{ " + r.Path + " }}")
+		} else if r.Pos == "type" {
+			w.sb.WriteString("{{ type(" + r.Path + ") }}")
+		} else if r.Pos == "fn" {
+			w.sb.WriteString("{{ tbadge(" + r.Path + ") }}")
 		} else {
 			w.sb.WriteString("{{ " + r.expr() + " ? 'Y' : 'N' }}")
 		}
